@@ -142,6 +142,69 @@ def findfirstLiteral (pat : String) (sortedValues : List String) : Option String
 def grepLiteral (pat s : String) : Option String :=
   if containsL pat.toList s.toList then some pat else none
 
+/-! ### `maxwidth(x, n)` = `textwrap.shorten(x, width=n)` (CPython `textwrap`), for texts without hyphens -/
+
+/-- one character of `str.split()`: white space closes the current word -/
+def splitStep (acc : List (List Char) × List Char) (c : Char) : List (List Char) × List Char :=
+  if isWs c then (if acc.2.isEmpty then acc.1 else acc.1 ++ [acc.2], []) else (acc.1, acc.2 ++ [c])
+
+/-- `str.split()`: the maximal runs of non-white-space characters -/
+def splitWords (cs : List Char) : List (List Char) :=
+  let r := cs.foldl splitStep ([], [])
+  if r.2.isEmpty then r.1 else r.1 ++ [r.2]
+
+/-- `TextWrapper._split` of `' '.join(words)`: the words with single blanks between them -/
+def shortenChunks : List (List Char) → List (List Char)
+  | [] => []
+  | [w] => [w]
+  | w :: ws => w :: [' '] :: shortenChunks ws
+
+/-- the inner loop of `_wrap_chunks`: take chunks while they fit -/
+def fitLoop (width : Nat) (cur : List (List Char)) (len : Nat) : List (List Char) → List (List Char) × Nat × List (List Char)
+  | [] => (cur, len, [])
+  | c :: rest =>
+    if len + c.length ≤ width then fitLoop width (cur ++ [c]) (len + c.length) rest else (cur, len, c :: rest)
+
+/-- `chunk.strip() == ''` -/
+def isBlankChunk (c : List Char) : Bool := c.all isWs
+
+def shortenPlaceholder : List Char := " [...]".toList
+
+/-- the `while cur_line:` loop that makes room for the placeholder; `cur` is the line's chunks, last first -/
+def placeholderLoop (width : Nat) : List (List Char) → Nat → List Char
+  | [], _ => "[...]".toList
+  | c :: rest, len =>
+    if !isBlankChunk c && len + shortenPlaceholder.length ≤ width then
+      (c :: rest).reverse.flatten ++ shortenPlaceholder
+    else placeholderLoop width rest (len - c.length)
+
+def totalLen (l : List (List Char)) : Nat := (l.map List.length).sum
+
+/-- `_handle_long_word` (break_long_words): when the next chunk fits on no line, its head fills the line -/
+def longWord (w : Nat) (cur : List (List Char)) (len : Nat) : List (List Char) → List (List Char) × List (List Char)
+  | c :: rest => if c.length > w then (cur ++ [c.take (w - len)], c.drop (w - len) :: rest) else (cur, c :: rest)
+  | [] => (cur, [])
+
+/-- a trailing white-space chunk is dropped -/
+def dropBlank (cur : List (List Char)) : List (List Char) :=
+  match cur.getLast? with
+  | some l => if isBlankChunk l then cur.dropLast else cur
+  | none => cur
+
+/-- the single line `_wrap_chunks` produces with `max_lines=1` -/
+def shortenLine (w : Nat) (chunks : List (List Char)) : List Char :=
+  let r := fitLoop w [] 0 chunks
+  let lw := longWord w r.1 r.2.1 r.2.2
+  let cur := dropBlank lw.1
+  let rest := lw.2
+  if cur.isEmpty then []
+  else if (rest.isEmpty || (rest.length == 1 && rest.all isBlankChunk)) && totalLen cur ≤ w then cur.flatten
+  else placeholderLoop w cur.reverse (totalLen cur)
+
+/-- `textwrap.shorten(text, width)`; `none` = ValueError (width too small for the placeholder) -/
+def shorten (text : List Char) (width : Int) : Option (List Char) :=
+  if width < 5 then none else some (shortenLine width.toNat (shortenChunks (splitWords text)))
+
 /-! ### numbers -/
 
 def decAbs (d : Dec) : Dec := ⟨d.coef.natAbs, d.exp⟩
